@@ -27,7 +27,7 @@ CHECKS["C13"] = dict(
     design="DESIGN.md section 3 C13", partial=False)
 
 CHECKS["C08"] = dict(
-    technique="queue-discipline who-may-mutate table, def-use of popped values, CFG dominance of the blocking wait by queue checks, protocol-order rules",
+    technique="queue-discipline who-may-mutate table, def-use of popped values, CFG dominance of the blocking wait by queue checks, protocol-order rules; abstract interpretation of Input's request loop against a reference OS model over a catalogue of arrival / trigger / request histories",
     text="Static rules over Input: a frozen tail-in/head-out table for the six queues checked against every mutation site "
          "of the package; every popped value flows to a return or to the decoder's buffer; the scheduled queue is sorted on "
          "the time component only and every head-pop is preceded by that sort and guarded by a due test; the blocking wait "
@@ -37,7 +37,13 @@ CHECKS["C08"] = dict(
          "Interpreted parts: the key finder on byte buffers derived from the key tables (returns the first keypress of the "
          "reference segmentation, leaves exactly the rest, `full` means buffer exhausted), unget_bytes (appends in order), "
          "_nonblocking_read with os.read stubbed (every byte buffered once, in order; nothing on EOF / would-block), the "
-         "descriptor set handed to select (stdin + wake-up fd + readers).",
+         "descriptor set handed to select (stdin + wake-up fd + readers); and, as a BOUNDED catalogue, Input's whole request "
+         "loop against a reference OS model (select readiness, pipes, clock, SIGINT handler and wake-up byte) over 26 scripted "
+         "histories - arrivals of keys / sequences / bursts, unget_bytes, event / scheduled (equal times) / thread-safe triggers "
+         "firing before and while a request is blocked, SIGINT between requests, timeouts 0 / small / None, paste thresholds "
+         "default / None / 1 / 100: every byte and event returned exactly once and in order, scheduled events never early and in "
+         "time order, no None (or endless block) while something is deliverable, None not before the timeout, a burst above "
+         "the threshold as one paste event.",
     note="trusted: list.sort stability, select/os.read/os.write; not decided: real interleavings, thread races, float "
          "remaining-time arithmetic",
     design="DESIGN.md section 3 C08")
@@ -276,7 +282,7 @@ def main():
         "not_applicable": sorted(na, key=lambda d: d["property_id"]),
         "notes": "All checks are static (exit 0 held / 1 VIOLATION / 2 ANALYSIS-ERROR). known_findings.json lists genuine defects "
                  "recorded rather than repaired and the fix: commits made in /repo. selftest/fixtures holds positive fixtures, "
-                 "selftest/benign 60 behaviour-preserving refactorings used to measure false alarms, seeded/ 89 independently "
+                 "selftest/benign 84 behaviour-preserving refactorings used to measure false alarms, seeded/ 107 independently "
                  "written breaking changes and (MATRIX.md) which check catches them. Claims marked BOUNDED hold on the finite "
                  "catalogue they name; see DESIGN.md sections 0 and 1.",
     }
